@@ -180,7 +180,8 @@ def gen_schedule(rng, T):
                 ev.append(("rounds", 3))          # so that there is an established connection to drop
             ev.append(("fin",) if r < 0.45 else ("rst",))
         elif r < 0.75:
-            ev.append(("adv", rng.choice((T / 4, T / 2, T - EPS, T, T + EPS, 2 * T))))
+            # also long gaps in which the owner does not service the client at all (paused host, busy loop)
+            ev.append(("adv", rng.choice((T / 4, T / 2, T - EPS, T, T + EPS, 2 * T, 2 * T, 12 * T, 60 * T))))
         else:
             ev.append(("rounds", rng.randint(1, 3)))
     return ev
@@ -193,8 +194,10 @@ def loopback_case(ctx, rng, idx):
     up0 = rng.random() < 0.6
     opened = rng.random() < 0.5
     sched = gen_schedule(rng, T)
+    # virtual time between two service rounds of the final phase: none, a fraction of the timeout, or not below it
+    step = rng.choice((0.0, 0.0, T / 8, T / 2, T, 2 * T))
     params = {"kind": kind, "timeout": T, "reconnectable": rc, "server_initially_up": up0, "opened_first": opened,
-              "schedule": [list(e) for e in sched]}
+              "schedule": [list(e) for e in sched], "final_step": step}
     try:
         W = World(kind, T, rc, up0, opened)
     except Inconclusive:
@@ -277,6 +280,8 @@ def loopback_case(ctx, rng, idx):
                     used = r
                     break
                 if r < BOUND:
+                    if step:
+                        loop.advance(step)
                     one_round()
                     if loop.pace:
                         loop._time.sleep(loop.pace)
@@ -285,6 +290,12 @@ def loopback_case(ctx, rng, idx):
                 key = "%s/not-connected-within-bound" % kind
                 if kind == "Client" and state["established_loss"] and used is None:
                     key = "Client.serviceConnect/ignores-cutoff"
+                elif used is None and step >= T:
+                    key = "%s/never-connects-when-serviced-no-more-often-than-timeout" % kind
+                if step >= T:
+                    ctx.hit("final_step_not_below_timeout")
+                elif step:
+                    ctx.hit("final_step_below_timeout")
                 ctx.hit("reconnect_checked_%s" % kind)
                 if nontrivial:
                     ctx.hit("reconnect_after_loss_%s" % kind)
@@ -319,7 +330,7 @@ def loopback_case(ctx, rng, idx):
                 for _ in range(4):
                     loop.advance(T)
                     one_round()
-            ctx.case(("loopback", kind, T, rc, up0, opened, sched), nontrivial=nontrivial)
+            ctx.case(("loopback", kind, T, rc, up0, opened, sched, step), nontrivial=nontrivial)
             if idx < 2:
                 ctx.sample(dict(params, rounds_needed=used))
         except Inconclusive:
